@@ -65,6 +65,8 @@ def build_image(case: Dict[str, Any], seed: int = 0, overrides: Optional[Dict[st
     fat[1] = 0
     for c, w in case["fat"]:
         fat[c] = w
+    # word 1: the clusters that are not allocated, as a real disk carries it (the decoder must not depend on it)
+    fat[1] = img.get("unused_count", (len(fat) - 2) - sum(1 for w in fat[2:len(fat) - 9] if w != 0)) & 0xFFFF
     fat[-2] = 0xFFFF if img.get("fatver", 1) == 1 else 0xFFFE
     fat[-1] = 0xFFFF
     put(buf, A["fat"], struct.pack(f"<{len(fat)}H", *fat))
